@@ -8,10 +8,11 @@ Progs == ndJsonDeserialize(IOEnv.PROGS)
 VARIABLES i, res
 \* everything about program number k, computed once
 Analyse(p) == LET S == Space(p) r == Radix(p)
-                  keys == [t \in S |-> Key(p, r, t)]
+                  kv == [t \in S |-> KeyVals(p, t)]                     \* values of the key locals, once per task
+                  keys == [t \in S |-> KeySum(kv[t], r[t[1]], 1, 1, 0)]   \* = KeySem.Key(p, r, t)
                   inj == \A c \in 0..(NClasses(p) - 1) :
                             LET Sc == {t \in S : t[1] = c} IN Cardinality({keys[t] : t \in Sc}) = Cardinality(Sc)
-                  names == \A t \in S : Invert(keys[t], r[t[1]], 1) = KeyVals(p, t)
+                  names == \A t \in S : Invert(keys[t], r[t[1]], 1) = kv[t]
               IN [name |-> p.name, exprparam |-> HasExprParam(p), inj |-> inj, names |-> names, n |-> Cardinality(S),
                   keys |-> {<<t[1], t[2], keys[t]>> : t \in S}]
 Init == i = 0 /\ res = [name |-> "", exprparam |-> FALSE, inj |-> TRUE, names |-> TRUE, n |-> 0, keys |-> {}]
